@@ -290,7 +290,10 @@ def bound_for(ctx, prog, adt, field, s, m):
         srcs = sl.sources(arg) if arg is not None else set()
         if any(z.endswith("cmp::min") for z in srcs if z.startswith("call:")) and any("MAX_PREALLOCATED_BLOCKS" in z or z == "const:2048" for z in srcs):
             return True, "size = min(nb_blocks, MAX_PREALLOCATED_BLOCKS)"
-        g2 = [(a, t) for (a, t) in fs if a[0] == "le" and t and "block_offset" in show(a[1])]
+        # the local the new size is computed from (named block_offset today)
+        szl = [c[1] for c in walk(arg) if c[0] == "var" and not c[2]] if arg is not None else []
+        g2 = [(a, t) for (a, t) in fs if a[0] == "le" and t and (show(a[1]) in szl or "block_offset" in show(a[1])) and const_value(a[2]) is not None or
+              (a[0] == "le" and t and (show(a[1]) in szl or "block_offset" in show(a[1])) and re.search(r"\d", show(a[2])))]
         if g2:
             return True, "dominated by block_offset <= %s" % show(g2[0][0][2], 40)
         return False, "%s is resized from a wire-controlled block number without a cap" % short
